@@ -1,7 +1,7 @@
 """Run-time contracts (level B) for onsager/crystal.py: C18 (symmetry group), C19 (reduction), C20 (site symmetry),
 C21 (jump networks), C22 (k-point meshes).  Spec functions are written independently of the code under test
 (brute-force orbit / window enumeration, character formulas)."""
-import itertools
+import itertools, sys
 from functools import reduce
 import numpy as np
 from vf.rtc.runner import Acc
@@ -524,13 +524,22 @@ def w_reduce(arg):
     else:
         dets = (2, 3) if tier == 'quick' else (2, 3, 4, 5, 6)
     ntr = 0
-    for det in dets:
-        for trial in range(2 if tier == 'quick' else 4):
-            for _ in range(200):
-                M = rng.integers(-2, 3, size=(c.dim, c.dim))
-                if abs(round(np.linalg.det(M))) == det: break
-            else: continue
-            for noise in ((0.,) if trial else (0., 1e-10)):
+    # supercells of hexagonal cells whose reduction passes through a lattice with pairwise ratios of exactly 1/2
+    curated = {'wurtzite+X': [[[1, -1, -1], [1, -1, 2], [-1, 0, -2]]], 'omega': [[[0, -1, 0], [-1, 1, 2], [1, 2, 1]]], 'HCP': [[[1, -1, -1], [1, -1, 2], [-1, 0, -2]], [[1, 2, -1], [1, -2, 0], [0, 1, 1]]],
+               'HCP-rotated': [[[1, 2, -1], [1, -2, 0], [0, 1, 1]]], 'HCP+OT': [[[1, -1, -1], [1, -1, 2], [-1, 0, -2]]]}
+    plan = [(abs(round(np.linalg.det(np.array(M)))), 1, np.array(M)) for M in curated.get(cid, [])]
+    plan += [(det, trial, None) for det in dets for trial in range(2 if tier == 'quick' else 4)]
+    for det, trial, M in plan:
+        if True:
+            if M is None:
+                for _ in range(200):
+                    M = rng.integers(-2, 3, size=(c.dim, c.dim))
+                    if abs(round(np.linalg.det(M))) == det: break
+                else: continue
+            # exact; 0.01 x the default threshold (1e-8); and the largest noise that is safely below it: two noisy images of one atom,
+            # mapped back to the primitive cell (u = M v), still agree within 0.4 x threshold in every coordinate
+            safe = 0.2 * 1e-8 / np.abs(M).sum(axis=1).max()
+            for noise in ((0., safe) if trial else (0., 1e-10, safe)):
                 L, b = supercell_description(c, M, rng, noise)
                 if any(len(x) != det * len(y) for x, y in zip(b, c.basis)): continue     # spec builder sanity
                 ntr += 1
@@ -543,7 +552,7 @@ def w_reduce(arg):
                 acc.check([len(x) for x in c2.basis] == [len(x) for x in c.basis], 'same-atoms-per-primitive-cell',
                           'M=%s: %r vs %r' % (M.tolist(), [len(x) for x in c2.basis], [len(x) for x in c.basis]), sig=sig + ('N',))
                 acc.check(np.linalg.det(c2.lattice) > 0, 'right-handed-lattice', 'M=%s' % M.tolist())
-                acc.check(len(c2.G) == len(c.G), 'same-group-order', 'M=%s: |G| %d vs %d' % (M.tolist(), len(c2.G), len(c.G)), sig=sig + ('G',))
+                acc.check(len(c2.G) == len(c.G), 'same-group-order', 'M=%s noise=%g: |G| %d vs %d' % (M.tolist(), noise, len(c2.G), len(c.G)), sig=sig + ('G', noise))
     acc.sample = {'crystal': cid, 'supercell_descriptions': ntr, 'determinants': list(dets)}
     return acc.result()
 
@@ -566,4 +575,43 @@ def c19_orderings(arg):
         except Exception as ex:
             acc.check(False, 'supercell-description-reduces-without-error', 'ordering %r: %s: %s' % (perm, type(ex).__name__, ex), sig=perm)
     acc.sample = {'supercell': '%d x 1 of a primitive cell, dim %d' % (n, dim), 'orderings': len(perms), 'exhaustive': True}
+    return acc.result()
+
+
+def c19_hexagonal(arg):
+    """hexagonal cells in rotated settings (lattice-vector ratios of 1/2 only up to roundoff) described through supercells"""
+    angle, tier, seed = arg
+    from vf.common import repo_on_path; repo_on_path()
+    import warnings; warnings.filterwarnings('ignore')
+    from onsager import crystal
+    acc = Acc('hexagonal-rotated-%.3f' % angle)
+    rng = np.random.default_rng(seed * 23 + int(angle * 1000))
+    a0 = np.array([[0.5, 0.5, 0], [-np.sqrt(0.75), np.sqrt(0.75), 0], [0, 0, np.sqrt(8 / 3)]])
+    ax = np.array([1., 2., 0.5]); ax /= np.linalg.norm(ax)
+    K = np.array([[0, -ax[2], ax[1]], [ax[2], 0, -ax[0]], [-ax[1], ax[0], 0]])
+    Rm = np.eye(3) + np.sin(angle) * K + (1 - np.cos(angle)) * K @ K
+    for nm, basis in (('hcp', [[np.array([1 / 3, 2 / 3, 1 / 4]), np.array([2 / 3, 1 / 3, 3 / 4])]]), ('hex', [[np.zeros(3)]])):
+        try:
+            sys.setrecursionlimit(300)
+            c = crystal.Crystal(Rm @ a0, basis)
+        except RecursionError:
+            acc.check(False, 'supercell-description-reduces-without-error', '%s primitive description: RecursionError' % nm, sig=(nm, 'prim')); continue
+        want = 24
+        acc.check(len(c.G) == want, 'same-group-order', '%s primitive description: |G| %d' % (nm, len(c.G)), sig=(nm, 'primG'))
+        Ms = [[[0, 1, 2], [1, -1, 1], [-1, 2, -1]], [[1, -1, -1], [1, -1, 2], [-1, 0, -2]], [[1, 2, -1], [1, -2, 0], [0, 1, 1]], [[0, -1, 0], [-1, 1, 2], [1, 2, 1]]]
+        for t in range(2 if tier == 'quick' else 10):
+            for _ in range(200):
+                M = rng.integers(-2, 3, size=(3, 3))
+                if 2 <= abs(round(np.linalg.det(M))) <= 6: Ms.append(M.tolist()); break
+        for M in Ms:
+            M = np.array(M)
+            L, b = supercell_description(c, M, rng, 0.)
+            try:
+                c2 = crystal.Crystal(L, b)
+            except Exception as ex:
+                acc.check(False, 'supercell-description-reduces-without-error', '%s M=%s: %s' % (nm, M.tolist(), type(ex).__name__), sig=(nm, 'raise', type(ex).__name__)); continue
+            acc.check(abs(c2.volume / c2.N - c.volume / c.N) < 1e-7 and c2.N == c.N, 'same-volume-per-atom', '%s M=%s' % (nm, M.tolist()), sig=(nm, 'vol'))
+            acc.check(np.linalg.det(c2.lattice) > 0, 'right-handed-lattice', '%s M=%s' % (nm, M.tolist()), sig=(nm, 'rh'))
+            acc.check(len(c2.G) == want, 'same-group-order', '%s M=%s: |G| %d vs %d' % (nm, M.tolist(), len(c2.G), want), sig=(nm, 'G'))
+    acc.sample = {'rotation_angle': angle, 'axis': ax.tolist()}
     return acc.result()
